@@ -267,6 +267,7 @@ func RunDispHistories(c Ctx, rep *report.Report, rng *chain.Rng, n, steps int, n
 			}
 		}
 		newBlk := false
+		scriptName := ""
 		for st := 0; st < steps; st++ {
 			s := dStep{HistID: hI, StepNo: st, Fee: dispFee, NewBlk: newBlk}
 			newBlk = false
@@ -276,7 +277,38 @@ func RunDispHistories(c Ctx, rep *report.Report, rng *chain.Rng, n, steps int, n
 			if st < 2 {
 				k = 0
 			}
+			// corpus (every fourth history, steps 2..6, all in one block): a distributor creates a distribution, its runner pays it,
+			// the same distributor creates another one of the same type in the same block (same name) with another runner and the
+			// same recipient, that runner pays it, twice
+			scripted := hI%4 == 0 && st >= 2 && st <= 6
+			if scripted {
+				rcp := w.Users[4%len(w.Users)].Addr.String()
+				runner := w.Users[1]
+				if st >= 4 {
+					runner = w.Users[2]
+				}
+				if st == 2 {
+					scriptName = fmt.Sprintf("%d_%s", w.Height, w.Users[0].Addr.String())
+				}
+				if st == 2 || st == 4 {
+					signer = w.Users[0]
+					s.Kind, s.Type, s.Runner = 1, 1, runner.Addr.String()
+					s.Name = fmt.Sprintf("%d_%s", w.Height, signer.Addr.String())
+					cs := sdk.NewCoins(sdk.NewCoin("rowan", sdk.NewInt(int64(1000+st))))
+					s.Outs = []dOut{{rcp, cs}}
+					m := disptypes.NewMsgCreateDistribution(signer.Addr, disptypes.DistributionType_DISTRIBUTION_TYPE_AIRDROP, []banktypes.Output{{Address: rcp, Coins: cs}}, s.Runner)
+					msg = &m
+				} else {
+					signer = runner
+					s.Kind, s.Type, s.Runner, s.Name, s.Count = 2, 1, runner.Addr.String(), scriptName, 10
+					m := disptypes.NewMsgRunDistribution(s.Runner, s.Name, disptypes.DistributionType_DISTRIBUTION_TYPE_AIRDROP, s.Count)
+					msg = &m
+				}
+				rep.Count("corpus.same-name-second-runner")
+				k = 99
+			}
 			switch {
+			case k == 99:
 			case k < 4: // create
 				signer = w.Users[rng.Intn(3)] // few distributors: same-block same-distributor collisions
 				s.Kind, s.Type = 1, int64(1+rng.Intn(3))
@@ -365,7 +397,7 @@ func RunDispHistories(c Ctx, rep *report.Report, rng *chain.Rng, n, steps int, n
 			}
 			rep.Count(fmt.Sprintf("step.%s.%s", map[int]string{1: "create", 2: "run", 3: "claim"}[s.Kind], okStr(s.OK)))
 			h.Steps = append(h.Steps, s)
-			if rng.Intn(3) == 0 {
+			if rng.Intn(3) == 0 && !(hI%4 == 0 && st >= 2 && st <= 5) {
 				if w.NextBlock() {
 					rep.Violate("C11/hook-panic", fmt.Sprint(w.HookPanic), h.replay(st))
 				}
